@@ -114,6 +114,21 @@ def check_frames_match_files(t, ranks_events: Dict[Any, List[Any]]) -> None:
             if bad:
                 LOAD_NOTES.append(f"rank {r}: the loaded frame is not that of the rank's file: {bad}")
                 return
+            # whatever was trimmed: a device activity goes with the host call that launched it (same correlation id)
+            loaded = set(int(i) for i in df["index"].tolist())
+            dev_of = {}
+            for i, e in enumerate(ev):
+                a = e.get("args") if isinstance(e, dict) else None
+                if isinstance(a, dict) and "dur" in e and isinstance(a.get("stream"), int) and not isinstance(a.get("stream"), bool) and a["stream"] >= 0 \
+                        and isinstance(a.get("correlation"), int) and a["correlation"] >= 0 and e.get("cat") in ("kernel", "gpu_memcpy", "gpu_memset"):
+                    dev_of.setdefault(a["correlation"], []).append(i)
+            for idx, st, co, nm in zip(df["index"].tolist(), df["stream"].tolist(), df["correlation"].tolist(), df["name"].tolist()):
+                if int(st) == -1 and int(co) >= 0 and tab[int(nm)] not in ("Event Sync", "Context Sync") and len(dev_of.get(int(co), [])) == 1:
+                    k = dev_of[int(co)][0]
+                    e = ev[int(idx)] if 0 <= int(idx) < len(ev) else {}
+                    if k not in loaded and e.get("cat") in ("cuda_runtime", "cuda_driver"):
+                        LOAD_NOTES.append(f"rank {r}: the loaded frame keeps the launch call {int(idx)} (correlation {int(co)}) but not the device activity {k} it launched")
+                        return
     except Exception:  # noqa: BLE001
         return
 
